@@ -83,12 +83,15 @@ Proof.
       * right. simpl in E. injection E as Ex Es. exists s1, s2. split; assumption.
 Qed.
 
+(* with character classes in the matcher, '[' is a metacharacter too: the former
+   statement (without the third hypothesis) fails for c = '[':
+   glob [c_lbr] [c_lbr] = false (an unterminated class), not true *)
 Lemma glob_cons_nonmeta : forall c p s,
-    Z.eqb c c_star = false -> Z.eqb c c_qm = false ->
+    Z.eqb c c_star = false -> Z.eqb c c_qm = false -> Z.eqb c c_lbr = false ->
     glob (c :: p) s = match s with [] => false | d :: s' => Z.eqb c d && glob p s' end.
 Proof.
-  intros c p s Hs Hq. destruct s as [|d s]; cbn [glob]; rewrite Hs; [reflexivity|].
-  rewrite Hq. reflexivity.
+  intros c p s Hs Hq Hb. destruct s as [|d s]; cbn [glob]; rewrite Hs; [reflexivity|].
+  rewrite Hb, Hq. reflexivity.
 Qed.
 
 (* a plain prefix of the pattern is matched literally *)
@@ -99,7 +102,7 @@ Proof.
   - simpl. split.
     + intro H. exists s. split; [reflexivity | exact H].
     + intros [t [E H]]. subst t. exact H.
-  - apply has_meta_cons in Hp. destruct Hp as [Hs [Hq [_ Hp]]].
+  - apply has_meta_cons in Hp. destruct Hp as [Hs [Hq [Hb Hp]]].
     change ((c :: p) ++ q) with (c :: (p ++ q)).
     rewrite glob_cons_nonmeta by assumption.
     destruct s as [|d s].
